@@ -36,6 +36,11 @@ let parse_case (toks : string list) : (baddr * n) list * tx_ops =
     | "n" -> let o = num () in InAdd (o, ONative (nsrc ()))
     | "p" -> let o = num () in InAdd (o, OPlutus (pwit ()))
     | "s" -> InSigner (num ())
+    (* the same inputs given as UTxOs: the reference script of the output is not looked at by the modelled code *)
+    | "ku" -> let o = num () in let k = num () in let _ = next () in InAdd (o, OKey k)
+    | "bu" -> let o = num () in let a = num () in let _ = next () in InAdd (o, OByron a)
+    | "nu" -> let o = num () in let n = nsrc () in let _ = next () in InAdd (o, ONative n)
+    | "pu" -> let o = num () in let p = pwit () in let _ = next () in InAdd (o, OPlutus p)
     | _ -> failwith "case syntax: inop") in
   let dedup = (next () = "F1") in
   expect "B";
